@@ -344,6 +344,12 @@ impl Emit {
                             format!("GOnlyW<'a, {}>", parts[0])
                         }
                     }
+                    5 if parts.len() == 2 => {
+                        // one WIDE generic struct definition (ten fields, two of them type
+                        // parameters), instantiated with different arguments in one program
+                        self.n_struct -= 1;
+                        format!("GWide<'a, {}, {}>", parts[0], parts[1])
+                    }
                     4 if !parts.is_empty() => {
                         // the last member is reached through an associated type of a type parameter
                         let (last, init) = parts.split_last().unwrap();
@@ -487,7 +493,7 @@ pub fn emit_program(descs: &[(Ty, Vec<u16>)]) -> String {
     }
     body.push_str(&local);
     format!(
-        "// generated by vcheck (C06); do not edit\n#![allow(non_camel_case_types, clippy::all)]\nuse std::marker::PhantomData;\nuse shred::{{Read, ReadExpect, ResourceId, SystemData, World, Write, WriteExpect}};\nuse crate::rt::*;\n\nmacro_rules! Rd {{ ($l:lifetime, $t:ty) => {{ Read<$l, $t> }}; }}\nmacro_rules! Wr {{ ($l:lifetime, $t:ty) => {{ Write<$l, $t> }}; }}\npub type RdA<'a, const N: usize> = Read<'a, R<N>>;\npub type WrA<'a, const N: usize> = Write<'a, R<N>>;\n\npub trait Bundle<'a> {{\n    type Data: SystemData<'a>;\n}}\n\n#[derive(SystemData)]\npub struct GOnlyB<'a, T: SystemData<'a>> {{\n    pub inner: T,\n    pub m: PhantomData<&'a ()>,\n}}\n#[derive(SystemData)]\npub struct GLane<'a, const N: usize> {{\n    pub lane: Write<'a, R<N>>,\n}}\n#[derive(SystemData)]\npub struct GOnlyW<'a, T>\nwhere\n    T: SystemData<'a>,\n{{\n    pub inner: T,\n    pub m: PhantomData<&'a ()>,\n}}\n\n{}\n{}\npub fn run(rep: &mut Report) {{\n{}}}\n",
+        "// generated by vcheck (C06); do not edit\n#![allow(non_camel_case_types, clippy::all)]\nuse std::marker::PhantomData;\nuse shred::{{Read, ReadExpect, ResourceId, SystemData, World, Write, WriteExpect}};\nuse crate::rt::*;\n\nmacro_rules! Rd {{ ($l:lifetime, $t:ty) => {{ Read<$l, $t> }}; }}\nmacro_rules! Wr {{ ($l:lifetime, $t:ty) => {{ Write<$l, $t> }}; }}\npub type RdA<'a, const N: usize> = Read<'a, R<N>>;\npub type WrA<'a, const N: usize> = Write<'a, R<N>>;\n\npub trait Bundle<'a> {{\n    type Data: SystemData<'a>;\n}}\n\n#[derive(SystemData)]\npub struct GOnlyB<'a, T: SystemData<'a>> {{\n    pub inner: T,\n    pub m: PhantomData<&'a ()>,\n}}\n#[derive(SystemData)]\npub struct GWide<'a, T: SystemData<'a>, U: SystemData<'a>> {{\n    pub p0: (),\n    pub first: T,\n    pub p1: (),\n    pub p2: PhantomData<u8>,\n    pub p3: (),\n    pub second: U,\n    pub p4: (),\n    pub p5: (),\n    pub p6: PhantomData<u16>,\n    pub m: PhantomData<&'a ()>,\n}}\n#[derive(SystemData)]\npub struct GLane<'a, const N: usize> {{\n    pub lane: Write<'a, R<N>>,\n}}\n#[derive(SystemData)]\npub struct GOnlyW<'a, T>\nwhere\n    T: SystemData<'a>,\n{{\n    pub inner: T,\n    pub m: PhantomData<&'a ()>,\n}}\n\n{}\n{}\npub fn run(rep: &mut Report) {{\n{}}}\n",
         e.defs, aliases, body
     )
 }
@@ -623,6 +629,20 @@ pub fn run_c06(quick: bool, seed: u64) -> SubResult {
             let s = &streams[26 + j];
             let n = (s.first().cloned().unwrap_or(7) as usize + 13 * j) % NR;
             descs.push((Ty::ConstLane(n), s.clone()));
+        }
+        // one wide generic derived struct under several pairs of type arguments (in one process)
+        for j in 0..3usize {
+            let s = &streams[30 + j];
+            let mut src = Src::new(s);
+            let mut a = Alloc {
+                next_res: 0,
+                next_handler: 100 + 10 * j,
+                start: src.pick(NR),
+                read_used: vec![],
+            };
+            let m0 = gen_leaf(&mut src, &mut a);
+            let m1 = gen_leaf(&mut src, &mut a);
+            descs.push((Ty::DeriveNamed(5, vec![m0, m1]), s.clone()));
         }
         // derived structs are not limited to 26 fields
         for j in 0..4usize {
